@@ -308,7 +308,12 @@ def tiled_prefix_opens(ctx, data, start, oracle, tag, spec_src):
         except Exception:  # noqa
             pass
     ctx.tick(f'tiling check {tag}: opens at ' + ('the complete file only' if hits == [len(data)] else ranges_of(hits)))
-    EOCD.append((f'ziptiledall {start} {F.hx(data)} {oracle}', ranges_of(hits), 'constrained._open_archive vs openTiled', tag, spec_src))
+    # which opener the source under test has: round 7 (tiling by the directory's sizes) or round 8 (local headers must agree)
+    import inspect
+    strict = 'info.compress_size' in inspect.getsource(cqm_mod._open_archive).replace('+ info.compress_size', '')
+    ctx.tick('tiling check: opener compares local headers with the directory' if strict else 'tiling check: opener trusts the directory sizes (round 7)')
+    EOCD.append((f'ziptiled{"strict" if strict else ""}all {start} {F.hx(data)} {oracle}', ranges_of(hits),
+                 'constrained._open_archive vs ' + ('openTiledStrict' if strict else 'openTiled'), tag, spec_src))
 
 def cqm_files(ctx, r, S, spec):
     m = F.build(spec)
@@ -925,6 +930,40 @@ def adv_cqm(N=200, inner_bias=1.0, compress_inner=True):
     outer = dimod.ConstrainedQuadraticModel(); outer.add_variables('BINARY', N); outer.set_objective(zip(range(N), biases))
     return outer, z
 
+def adv_cqm_cover(N=220, inner_bias=1.0, dup=False, cover_name='cover'):
+    '''round 8: a CQM whose objective's linear biases spell the members, the directory and the end record of ANOTHER CQM (same
+    header counts), written for the file position they occupy, and whose directory lists one more member FIRST: a "cover" at
+    the position where the header ends whose compress_size spans all real members up to the embedded ones (the members then
+    tile the file between header and embedded directory; the loader never opens the cover).  `dup`: the cover carries the
+    NAME of the real first member (the embedded member of the same name, listed later, shadows it in zipfile's name table).'''
+    import zipfile
+    inner = dimod.ConstrainedQuadraticModel(); inner.add_variables('BINARY', N)
+    inner.set_objective([(v, inner_bias) for v in range(N)])
+    idata = inner.to_file(compress=True).read()
+    izf = zipfile.ZipFile(io.BytesIO(idata[14 + int.from_bytes(idata[10:14], 'little'):]))
+    members = [(i.filename, izf.read(i.filename)) for i in izf.infolist()]
+    def outer_of(biases):
+        outer = dimod.ConstrainedQuadraticModel(); outer.add_variables('BINARY', N); outer.set_objective(zip(range(N), biases))
+        return outer
+    data0 = outer_of(list(np.frombuffer(b'\xa5' * (8 * N), dtype=np.float64))).to_file().read()
+    hend = 14 + int.from_bytes(data0[10:14], 'little')
+    nlen1, elen1 = int.from_bytes(data0[hend + 26:hend + 28], 'little'), int.from_bytes(data0[hend + 28:hend + 30], 'little')
+    q = data0.index(b'\xa5' * (8 * N))
+    buf = io.BytesIO(b'\0' * q)
+    zf = zipfile.ZipFile(buf, 'a', compression=zipfile.ZIP_DEFLATED)
+    for name, content in members:
+        zf.writestr(name, content)
+    cover = zipfile.ZipInfo(data0[hend + 30:hend + 30 + nlen1].decode() if dup else cover_name)
+    cover.header_offset = hend
+    cover.compress_size = cover.file_size = q - (hend + 30 + nlen1 + elen1)
+    cover.CRC = 0
+    zf.filelist.insert(0, cover)
+    zf.close()
+    z = buf.getvalue()[q:]
+    zp = z + b'\0' * (-len(z) % 8)
+    assert len(zp) <= 8 * N
+    return outer_of(list(np.frombuffer(zp, dtype=np.float64)) + [1.0] * (N - len(zp) // 8)), z
+
 def adv_record(kind, count=0, size=0, offset=0):
     '''a model whose float64 biases spell the end record of an archive: PK\x05\x06, disk numbers, counts, size, offset, no comment'''
     rec = b'PK\x05\x06' + bytes(4) + count.to_bytes(2, 'little') * 2 + size.to_bytes(4, 'little') + offset.to_bytes(4, 'little') + bytes(2)
@@ -973,6 +1012,9 @@ def adversarial_payloads(ctx, r):
     cases.append(('dqm', 'payload spells a complete archive of another model', f"m, z = adv_dqm({ic_}, {b_})\n", adv_dqm(ic_, b_)))
     N, ib = r.choice([150, 200]), r.choice([1.0, 0.5])
     cases.append(('cqm', 'payload spells a complete archive of another model', f"m, z = adv_cqm({N}, {ib}, True)\n", adv_cqm(N, ib, True)))
+    N, ib, dup = r.choice([220, 240]), r.choice([1.0, 0.5]), r.random() < .5
+    cases.append(('cqm', 'payload spells an archive whose directory lists a cover member over the real members',
+                  f"m, z = adv_cqm_cover({N}, {ib}, {dup})\n", adv_cqm_cover(N, ib, dup)))
     for kind, icls, src, (m, z) in cases:
         cls = F.cls_of(kind)
         data = m.to_file().read()
@@ -989,7 +1031,7 @@ def adversarial_payloads(ctx, r):
             return ENTRY[entry][1](cls, b)
 
         def judge(got):
-            return '=' if same_bits(kind, m, got) else '!' + f'{type(got).__name__} with {len(got.variables)} variables instead of {len(m.variables)}'
+            return '=' if same_bits(kind, m, got) else '!' + (f'{type(got).__name__} with {len(got.variables)} variables instead of {len(m.variables)}' if len(got.variables) != len(m.variables) else f'{type(got).__name__} whose biases are not the written ones (the model spelled by the payload)')
         full = F.sweep_prefixes(load, judge, data, ks=[len(data)])[len(data)]
         if full != '=':
             ctx.fail('property', f'{cls.__name__}.to_file/from_file', f'{kind}: {icls}', f'the complete file does not load back: {full}',
@@ -997,7 +1039,7 @@ def adversarial_payloads(ctx, r):
             continue
         real = F.sweep_prefixes(load, judge, data, ks=ks)
         ctx.tick(f'adversarial {kind}: {icls}')
-        if kind == 'cqm' and len(data) <= 2500:
+        if kind == 'cqm' and (len(data) <= 2500 or 'cover member' in icls and ctx.quick is False):
             hend = F.split_header(data)[3]
             tiled_prefix_opens(ctx, data, hend, C9.zip_entries(data)[1], f'adversarial cqm: {icls}', F.PRELUDE + ADV_SRC + src)
         bad = [k for k in ks if real.get(k, 'MISSING')[:1] not in ('e', '=')]
